@@ -161,7 +161,7 @@ theorem rs_tieOk (hm : t.memos r = some m) {q : Nat} {mq : Memo} {R : SemRes} {p
 theorem rs_nodeOk (hI : Inv P idOf t) (hm : t.memos r = some m) {q : Nat} {mq : Memo} (hq : q ≠ r)
     (ok : NodeOk P idOf t q mq) : NodeOk P idOf (restamp t r m) q mq := by
   refine ⟨rs_obsOk hI hm ok.obs, ok.origin, fun hs o ho hout => rs_sokDep_fwd (ok.ksok hs o ho hout), ok.rank,
-    fun o ho hout => rs_structAt hm (ok.sobs o ho hout), ?_, ok.hd, ?_, ok.hsrc, ok.outedge, ok.never, ?_⟩
+    fun o ho hout => rs_structAt hm (ok.sobs o ho hout), ?_, ok.hd, ?_, ok.hsrc, ok.outedge, ok.never, ?_, ok.shape⟩
   · intro o c ho hout hd
     obtain ⟨mc, hmc⟩ := ok.hmemo o c ho hout hd
     by_cases hc : c = r
